@@ -916,3 +916,82 @@ def fam_readers(g, prop, count, types, outdir):
             lst.append({"id": "%s-%s-%05d-%s" % (prop, fam, i, ty), "lines": lines, "n": n})
         out[ty] = lst
     return out
+
+
+# ----------------------------------------------------------------------------- C20
+def bridge_scenario(g, sid, ty, hist):
+    """one TLC-generated request history over the handles (SluBridge) as a harness script: handle h works on the matrix of
+    context h; before every solve the simple driver solves the same system in a scratch context (reference bits)"""
+    r = g.r
+    cplx = is_cplx(ty)
+    mats = {}
+    lines = ["tune " + " ".join(map(str, g.tune()))]
+    for h in (0, 1):
+        n = r.randint(1, 6)
+        A = g.lu_product(n, cplx)            # nonsingular by construction (the protocol is for nonsingular systems)
+        mats[h] = (n, A)
+        lines += ["use %d" % h] + g.mat_lines(A, n, n, "NC", cplx) + opt_lines({"default": 0})
+        B = g.rhs_for(A, n, 1, cplx)
+        lines += g.rhs_lines(B, n, 1, n, cplx)
+    for op, h in hist:
+        n, A = mats[h]
+        if op == "factor":
+            lines += ["use %d" % h, "call bridge 1 %d" % h]
+        elif op == "solve":
+            nrhs = r.randint(1, 3); ldb = n + r.choice([0, 2])
+            B = g.rhs_for(A, n, nrhs, cplx) if r.random() < 0.7 else [small_vec(g, n, cplx) for _ in range(nrhs)]
+            rhs = g.rhs_lines(B, n, nrhs, ldb, cplx)
+            lines += ["use %d" % (2 + h)] + g.mat_lines(A, n, n, "NC", cplx) + opt_lines({"default": 0}) + rhs + ["call gssv", "destroy LU"]
+            lines += ["use %d" % h] + rhs + ["call bridge 2 %d" % h]
+        else:
+            lines += ["use %d" % h, "call bridge 3 %d" % h]
+    live = set()
+    for op, h in hist:
+        if op == "factor":
+            live.add(h)
+        elif op == "free":
+            live.discard(h)
+    for h in sorted(live):
+        lines += ["use %d" % h, "call bridge 3 %d" % h]
+    for k in (0, 1, 2, 3):
+        lines += ["use %d" % k, "destroy all"]
+    lines.append("ledger")
+    return {"id": sid, "lines": lines, "n": 6}
+
+
+# ----------------------------------------------------------------------------- C09
+def mt_scenario(g, sid, ty):
+    """one independent call (driver, factor + solve, expert driver with refinement / condition estimate, ordering,
+    incomplete factorization, MC64) on its own data, without ledger-sensitive commands"""
+    r = g.r
+    cplx = is_cplx(ty)
+    n = r.randint(2, 7)
+    kind = r.choice(["gssv", "gssvx", "gssvx", "gsisx", "gstrf", "order", "ldperm", "equ"])
+    A = scaled_matrix(g, n, cplx, r.choice([0, 3]))
+    lines = ["tune " + " ".join(map(str, g.tune()))] + g.mat_lines(A, n, n, "NC", cplx)
+    B = g.rhs_for(A, n, 2, cplx)
+    if kind == "gssv":
+        lines += opt_lines({"default": 0, "ColPerm": r.choice(ORDERINGS[:4])}) + g.rhs_lines(B, n, 2, n, cplx) + ["call gssv"]
+    elif kind == "gssvx":
+        lines += opt_lines(gssvx_opts(g, Cond=1, IterRefine=r.choice([1, 2]), PivotGrowth=1)) + g.rhs_lines(B, n, 2, n, cplx) + ["nowork", "call gssvx"]
+    elif kind == "gsisx":
+        lines += opt_lines({"iludefault": 0, "ColPerm": r.choice([NATURAL, COLAMD]), "RowPerm": r.choice([0, 1]), "Cond": 1}) + g.rhs_lines(B, n, 2, n, cplx) + ["nowork", "call gsisx"]
+    elif kind == "gstrf":
+        lines += opt_lines({"default": 0, "ColPerm": r.choice([NATURAL, COLAMD, MMD_ATA])}) + ["call gstrf", "requireok"] + g.rhs_lines(B, n, 2, n, cplx) + ["call gstrs %d" % r.choice([0, 1]), "call gscon 1"]
+    elif kind == "order":
+        lines += opt_lines({"default": 0}) + ["call order %d" % r.choice(ORDERINGS[:4]), "call ata", "call aplusat"]
+    elif kind == "ldperm":
+        lines += ["call ldperm 5"]
+    else:
+        lines += ["call equ"]
+    return {"id": sid, "lines": lines, "n": n}
+
+
+def repeat_scenario(g, sid, ty):
+    """A ; B ; A again (fresh context, identical arguments): the two A calls must return identical output"""
+    r = g.r
+    a = mt_scenario(g, sid, ty)
+    b = mt_scenario(g, sid, ty)
+    lines = ["use 0"] + a["lines"] + ["use 1"] + b["lines"] + (["use 3"] + mt_scenario(g, sid, ty)["lines"] if r.random() < 0.5 else []) + ["use 2", "mark repeat"] + a["lines"]
+    # the mark must precede the *last* call of the repeated block only: a block has 1..3 calls; compare the first of them
+    return {"id": sid, "lines": lines, "n": a["n"]}
